@@ -428,6 +428,8 @@ class RunResult:
     arrays: Optional[list] = None  # cubed arrays (all nodes)
     plan: Any = None
     entered: int = 0
+    node_index: Optional[int] = None  # node at which building failed
+    exc: Any = None
 
 
 def _where(e) -> str:
@@ -459,6 +461,8 @@ def run_program(prog, spec, *, executor=None, optimize_graph=True, optimize_func
         except Exception as e:
             rr.phase, rr.exc_type, rr.exc_msg, rr.where = "build", type(e).__name__, str(e)[:300], _where(e)
             rr.exc = e
+            rr.node_index = getattr(e, "vp_node_index", None)
+            rr.arrays = getattr(e, "vp_partial", None)
             return rr
         rr.arrays = arrs
         outs = [arrs[i] for i in outs_ids]
